@@ -50,9 +50,15 @@ Res(oo, vs) == [o |-> oo, v |-> vs]
 
 NewPer(start) == [start |-> start, last |-> 0, dl |-> {}]
 
-(* a request of the client that asks for resource x itself is outstanding (finding KF-W concerns only these; *)
-(* the resource of a call / auth / new answer is not known before the answer)                                   *)
-PendOn(cl, x) == \E i \in DOMAIN cl.pend : (cl.pend[i].m \in {"subscribe", "get"} /\ cl.pend[i].rid = x) \/ cl.pend[i].m \in {"call", "auth", "new"}
+(* a request of the client for a resource it held when it sent the request, and from which x is reached in the      *)
+(* announced state, is outstanding (finding KF-W: the in-flight direct count keeps the already sent resource and     *)
+(* everything below it in state sent; the resource of a call / auth / new answer is not known before the answer)      *)
+RECURSIVE AnnClosure(_, _)
+AnnClosure(cl, S) ==
+    LET N == S \cup UNION {UNION {Refs(e) : e \in AnnOf(o.ann, Get(o.norm, KeyOf(cl, x), KeyOf(cl, x))).cands} : x \in S}
+    IN IF N = S THEN S ELSE AnnClosure(cl, N)
+PendOn(cl, x) == \E i \in DOMAIN cl.pend : (cl.pend[i].m \in {"subscribe", "get"} /\ cl.pend[i].held /\ x \in AnnClosure(cl, {cl.pend[i].rid}))
+                                             \/ cl.pend[i].m \in {"call", "auth", "new"}
 
 (* after a message: keep only retained resources; open/close holding periods *)
 Collect(cl, res2, direct2) ==
@@ -106,11 +112,15 @@ TaintG(cl, res2, direct2, reqL) ==
 (* "ok": usable; "kf": the request was outstanding when the trigger was       *)
 (* processed (finding KF-R: the verdict is checked once, at request time);    *)
 (* "bad": no usable verdict.                                                  *)
-GrantState(g, reqL, allowed) ==
+(* tokT: line at which the last token event of a connection that already had a token reached the gateway. An    *)
+(* answer to an access request sent before it (rl < tokT) but handed over after it (l > tokT) was computed for the *)
+(* replaced token: it backs nothing but requests that were already outstanding (KF-R).                              *)
+GrantState(g, reqL, allowed, tokT) ==
     IF g.none THEN "bad"
     ELSE IF g.dis > 0 /\ reqL > g.dis THEN "bad"
     ELSE IF ~g.ok \/ ~allowed THEN "bad"
     ELSE IF g.inv > 0 THEN (IF reqL < g.inv THEN "kf" ELSE "bad")
+    ELSE IF tokT > 0 /\ g.rl < tokT /\ g.l > tokT THEN (IF reqL < tokT THEN "kf" ELSE "bad")
     ELSE "ok"
 
 NoGrant == [get |-> FALSE, call |-> "", calllist |-> <<>>, ok |-> FALSE, l |-> 0, rl |-> 0, tok |-> "", inv |-> 0, dis |-> 0, none |-> TRUE]
@@ -124,7 +134,7 @@ GrantOf(cl, k) == IF GrantsOf(cl, k) = <<>> THEN NoGrant ELSE GrantsOf(cl, k)[Le
 Verdict(cl, k, reqL, Allowed(_)) ==
     LET gs == GrantsOf(cl, k)
         cand == {i \in DOMAIN gs : i = Len(gs) \/ gs[i].rl > reqL}
-        sts == {GrantState(gs[i], reqL, Allowed(gs[i])) : i \in cand}
+        sts == {GrantState(gs[i], reqL, Allowed(gs[i]), cl.lastTokT) : i \in cand}
     IN IF "ok" \in sts THEN "ok" ELSE IF "kf" \in sts THEN "kf" ELSE "bad"
 
 (* C04: a response that hands rid to c as a root needs a valid get grant.  *)
@@ -147,7 +157,8 @@ H_close(r) ==
 H_creq(r) ==
     IF r.c \notin DOMAIN o.conns \/ ~o.conns[r.c].alive THEN Res(o, {})
     ELSE LET cl == o.conns[r.c]
-             cl2 == [cl EXCEPT !.pend = Put(cl.pend, r.id, [m |-> r.m, rid |-> r.rid, key |-> r.key, count |-> r.count, action |-> r.action, l |-> l]),
+             cl2 == [cl EXCEPT !.pend = Put(cl.pend, r.id, [m |-> r.m, rid |-> r.rid, key |-> r.key, count |-> r.count, action |-> r.action, l |-> l,
+                                                                  held |-> r.rid \in Held(cl.direct, cl.res)]),
                                !.rn = Put(cl.rn, r.rid, [n |-> r.n, q |-> r.q, key |-> r.key])]
          IN Res(SetConn(o, r.c, cl2), {})
 
